@@ -117,7 +117,7 @@ fn alphabet(tier: Tier) -> Vec<(u8, String)> {
     // (e.g. one that goes through floating point)
     let stride = match tier {
         Tier::Quick => 2003u64,
-        Tier::Thorough => 97,
+        Tier::Thorough => 31,
     };
     let mut x = 7u64;
     while x <= 4_294_967 {
@@ -277,7 +277,7 @@ pub fn run(ctx: &Ctx) -> i32 {
     let coverage = cov(vec![
         ("evaluations", json!(all.len())),
         ("distinct_nontrivial", json!(nontrivial)),
-        ("rule", json!("one run of the release binary per (value, way of passing it): with --max-drift-rate=V 'flag omitted', every 2003rd (thorough: every 97th) representable rate, small values, powers of two +/- 1, and for every k the two values on either side of the point where value x 1000 crosses k x 2^32 (any wrapping, truncating or saturating conversion differs from the exact one on at least one of them), 2^32-1, plus arguments clap must reject; all distinct; non-trivial = values whose ppb equivalent does not fit 32 bits")),
+        ("rule", json!("one run of the release binary per (value, way of passing it): with --max-drift-rate=V 'flag omitted', every 2003rd (thorough: every 31st) representable rate, small values, powers of two +/- 1, and for every k the two values on either side of the point where value x 1000 crosses k x 2^32 (any wrapping, truncating or saturating conversion differs from the exact one on at least one of them), 2^32-1, plus arguments clap must reject; all distinct; non-trivial = values whose ppb equivalent does not fit 32 bits")),
         ("samples", json!(samples)),
         ("outcome_classes", json!(classes)),
         ("command_line_contexts", json!(CONTEXTS.iter().enumerate().map(|(i, c)| json!({"how": c, "runs": per_context.get(&(i as u8)).copied().unwrap_or(0)})).collect::<Vec<_>>())),
